@@ -62,6 +62,10 @@ package geom
 //@   modifies p
 //@   ensures result == nil ==> p.pos == old(p.pos) + 1 && p.pos <= len(p.twkb) && 0 <= p.kind && p.kind <= 15 && -8 <= p.precXY && p.precXY <= 7
 //@   ensures result != nil ==> p.pos == old(p.pos)
+//@   ensures result == nil <==> old(p.pos) < len(p.twkb)
+//@   ensures result == nil ==> p.kind == old(p.twkb[p.pos]) % 16
+//@   ensures result == nil && (old(p.twkb[p.pos]) / 16) % 2 == 0 ==> p.precXY == (old(p.twkb[p.pos]) / 16) / 2
+//@   ensures result == nil && (old(p.twkb[p.pos]) / 16) % 2 == 1 ==> p.precXY == 0 - ((old(p.twkb[p.pos]) / 16) + 1) / 2
 //@   ensures onlychanged(p, pos, kind, precXY, scalings)
 
 //@ func (*twkbParser).parseMetadataHeader
@@ -70,6 +74,8 @@ package geom
 //@   modifies p
 //@   ensures result == nil ==> p.pos == old(p.pos) + 1 && p.pos <= len(p.twkb)
 //@   ensures result == nil && (p.kind == 1 || p.kind == 2 || p.kind == 3) ==> !p.hasIDs
+//@   ensures result == nil <==> old(p.pos) < len(p.twkb) && !((p.kind == 1 || p.kind == 2 || p.kind == 3) && (old(p.twkb[p.pos]) / 4) % 2 == 1)
+//@   ensures old(p.pos) < len(p.twkb) ==> (p.hasBBox <==> old(p.twkb[p.pos]) % 2 == 1) && (p.hasSize <==> (old(p.twkb[p.pos]) / 2) % 2 == 1) && (p.hasIDs <==> (old(p.twkb[p.pos]) / 4) % 2 == 1) && (p.hasExt <==> (old(p.twkb[p.pos]) / 8) % 2 == 1) && (p.isEmpty <==> (old(p.twkb[p.pos]) / 16) % 2 == 1)
 //@   ensures p.pos <= len(p.twkb) && p.pos >= old(p.pos) && onlychanged(p, pos, hasBBox, hasSize, hasIDs, hasExt, isEmpty)
 //@   ensures result == nil ==> (p.hasBBox <==> old(p.twkb[p.pos]) % 2 == 1) && (p.hasSize <==> (old(p.twkb[p.pos]) / 2) % 2 == 1) && (p.hasIDs <==> (old(p.twkb[p.pos]) / 4) % 2 == 1) && (p.hasExt <==> (old(p.twkb[p.pos]) / 8) % 2 == 1) && (p.isEmpty <==> (old(p.twkb[p.pos]) / 16) % 2 == 1)
 
@@ -78,6 +84,7 @@ package geom
 //@   requires 0 <= p.pos && p.pos <= len(p.twkb) && !p.hasZ && !p.hasM && p.dimensions == 2 && p.ctype == 0
 //@   modifies p
 //@   ensures result == nil ==> p.pos == old(p.pos) + 1
+//@   ensures result == nil <==> old(p.pos) < len(p.twkb)
 //@   ensures p.pos <= len(p.twkb) && p.pos >= old(p.pos) && onlychanged(p, pos, ctype, dimensions, hasZ, hasM, precZ, precM, scalings)
 //@   ensures 2 <= p.dimensions && p.dimensions <= 4 && p.ctype < 4 && Dim(p.ctype) == p.dimensions && (p.hasZ <==> HasZ(p.ctype)) && (p.hasM <==> HasM(p.ctype))
 //@   ensures result == nil ==> (p.hasZ <==> old(p.twkb[p.pos]) % 2 == 1) && (p.hasM <==> (old(p.twkb[p.pos]) / 2) % 2 == 1)
@@ -102,6 +109,8 @@ package geom
 //@   ensures result == nil ==> TwkbInv(p)
 //@   ensures 0 <= p.pos && p.pos <= len(p.twkb) && same(p.twkb, old(p.twkb))
 //@   ensures result == nil && (p.kind == 1 || p.kind == 2 || p.kind == 3) ==> !p.hasIDs
+//@   ensures result == nil <==> old(p.pos) < len(p.twkb) && !((p.kind == 1 || p.kind == 2 || p.kind == 3) && (old(p.twkb[p.pos]) / 4) % 2 == 1)
+//@   ensures old(p.pos) < len(p.twkb) ==> (p.hasBBox <==> old(p.twkb[p.pos]) % 2 == 1) && (p.hasSize <==> (old(p.twkb[p.pos]) / 2) % 2 == 1) && (p.hasIDs <==> (old(p.twkb[p.pos]) / 4) % 2 == 1) && (p.hasExt <==> (old(p.twkb[p.pos]) / 8) % 2 == 1) && (p.isEmpty <==> (old(p.twkb[p.pos]) / 16) % 2 == 1)
 //@   ensures result == nil && p.hasSize ==> 0 <= p.size && p.size <= len(p.twkb)
 
 // ---- geometry level: total for every input; allocation bounded by the input ----
